@@ -484,19 +484,17 @@ func runT(ops []TOp, touch bool) *THistory {
 			h.Tie = false
 		}
 		h.OutG = append(h.OutG, g)
-		// every entry obtained before this step looks exactly as it did before the step (a Lit step only runs
-		// the harness's own construction of a fresh literal)
-		ok := o.Kind == "Lit" || compare(i)
 		pool = append(pool, res)
 		obs = append(obs, ro)
 		h.Kinds = append(h.Kinds, entryKind(res))
-		if ok && touch && ro.Clean {
+		if touch && ro.Clean {
 			// the read-only operations (type inference, printing, hashing, serializing) on the new entry
 			collh.Touch(res)
-			if ok = compare(i); !ok {
-				h.Change.What += " (by the read-only operations on the result of the step)"
-			}
 		}
+		// every entry obtained before this step - and the result itself, as first observed - looks exactly as it did
+		// before the step (a Lit step without the read-only operations only runs the harness's own construction of a
+		// fresh literal)
+		ok := (o.Kind == "Lit" && !touch) || compare(i)
 		if !ok || !ro.Clean {
 			h.Ops = ops[:i+1]
 			h.Tie = h.Tie && ro.Clean
@@ -542,7 +540,7 @@ func tinput(ops []TOp, touch bool) map[string]interface{} {
 func tviolation(h *THistory) lib.Violation {
 	c := h.Change
 	return lib.Violation{Clause: "immutability",
-		What: fmt.Sprintf("step %d (%s; then its result is walked, printed and hashed) changed the %s of the %s v%d (obtained by %s): before %s, after %s", c.Step, h.Ops[c.Step].String(),
+		What: fmt.Sprintf("step %d (%s; then its result is walked, printed, hashed"+map[bool]string{true: " and given to the read-only operations", false: ""}[h.Touch]+") changed the %s of the %s v%d (obtained by %s): before %s, after %s", c.Step, h.Ops[c.Step].String(),
 			c.What, h.Kinds[c.Value], c.Value, h.Ops[c.Value].String(), c.Before, c.After),
 		Input: tinput(h.Ops[:c.Step+1], h.Touch),
 		// one group per (offending operation, kind of the changed entry, operation that had returned it)
